@@ -51,6 +51,10 @@ pub struct Ctx {
     pub fin: Mutex<(bool, HashSet<i64>)>,
     pub fin_cv: Condvar,
     pub wait_level: AtomicUsize,
+    // descriptor exhaustion ("accept fails while the signal arrives")
+    pub acc_errs: AtomicUsize,              // failed accepts reported by the Accept_Return hook (a = -1)
+    pub acc_err_state: AtomicUsize,         // 0 none pending, 1 pending and logged, 2 pending and not logged (accept thread only)
+    pub fillers: Mutex<(Vec<i32>, Option<libc::rlimit>)>, // dummy descriptors that fill the table; the limit to restore
 }
 
 /// hook points of C20 (app.rs / tokio/app.rs `run`); points of other subsystems are ignored
@@ -83,6 +87,9 @@ impl Ctx {
             fin: Mutex::new((false, HashSet::new())),
             fin_cv: Condvar::new(),
             wait_level: AtomicUsize::new(0),
+            acc_errs: AtomicUsize::new(0),
+            acc_err_state: AtomicUsize::new(0),
+            fillers: Mutex::new((Vec::new(), None)),
         })
     }
 
@@ -103,6 +110,25 @@ impl Ctx {
         }
         let name: &'static str = if name == "Acc_PoolStopped" { "Pool_Stop" } else { name };
         let class = class_of(name);
+        // accept() returned an error (no peer).  While the descriptor table is full the loop of the unchanged code
+        // spins (millions of rounds): only the first failed accept of a scenario is logged (as Accept_Error, with the
+        // Flag_Read that follows it) and the one after which Flag_Read reports the flag set; the others are counted.
+        if name == "Accept_Return" && a < 0 {
+            let n = self.acc_errs.fetch_add(1, Ordering::SeqCst);
+            if n == 0 {
+                self.acc_err_state.store(1, Ordering::SeqCst);
+                self.record("Accept_Error", class, -1, 0, "");
+            } else {
+                self.acc_err_state.store(2, Ordering::SeqCst);
+            }
+            return;
+        }
+        if name == "Flag_Read" && self.acc_err_state.swap(0, Ordering::SeqCst) == 2 {
+            if a == 0 {
+                return;
+            }
+            self.record("Accept_Error", class, -1, 0, "");
+        }
         self.record(name, class, -1, a, "");
         let mut g = self.gates.lock().unwrap();
         loop {
@@ -319,6 +345,9 @@ pub fn bind_addr(bind: &str, port: u16) -> SocketAddr {
 /// meantime nothing is recorded.
 pub fn after_return(ctx: &Ctx, bind: &str, port: u16, ok: bool) {
     ctx.record("Run_Return", "main", -1, if ok { 1 } else { 0 }, "");
+    // run has returned: the descriptor fault of the scenario (if any) ends here, BEFORE the port is bound again -
+    // binding needs a descriptor of this process, and "no descriptor" says nothing about the port
+    release_fds(ctx);
     if !ok {
         return;
     }
@@ -334,6 +363,94 @@ pub fn after_return(ctx: &Ctx, bind: &str, port: u16, ok: bool) {
                 ctx.record("Rebind", "main", -1, 0, "");
             }
         }
+    }
+}
+
+// ------------------------------------------------------------------- descriptor exhaustion
+fn highest_fd() -> u64 {
+    std::fs::read_dir("/proc/self/fd").ok()
+        .and_then(|rd| rd.filter_map(|e| e.ok()?.file_name().to_str()?.parse::<u64>().ok()).max())
+        .unwrap_or(256)
+}
+
+/// Fills the descriptor table of this process with duplicates of one /dev/null descriptor and leaves exactly `free`
+/// slots.  The soft RLIMIT_NOFILE is first lowered to just above the highest descriptor in use, so that a few dozen
+/// duplicates are enough.  Returns false when the table could not be filled (nothing is held then).
+pub fn fill_fds(ctx: &Ctx, free: usize) -> bool {
+    let mut g = ctx.fillers.lock().unwrap();
+    if !g.0.is_empty() {
+        return true;
+    }
+    unsafe {
+        let mut old: libc::rlimit = std::mem::zeroed();
+        if libc::getrlimit(libc::RLIMIT_NOFILE, &mut old) != 0 {
+            return false;
+        }
+        let want = (highest_fd() + 1 + 48).min(old.rlim_cur);
+        let low = libc::rlimit { rlim_cur: want, rlim_max: old.rlim_max };
+        if libc::setrlimit(libc::RLIMIT_NOFILE, &low) != 0 {
+            return false;
+        }
+        g.1 = Some(old);
+        let base = libc::open(b"/dev/null\0".as_ptr() as *const libc::c_char, libc::O_RDONLY | libc::O_CLOEXEC);
+        if base < 0 {
+            libc::setrlimit(libc::RLIMIT_NOFILE, &old);
+            g.1 = None;
+            return false;
+        }
+        g.0.push(base);
+        let mut full = false;
+        for _ in 0..100_000 {
+            let d = libc::fcntl(base, libc::F_DUPFD_CLOEXEC, 0);
+            if d < 0 {
+                full = true;
+                break;
+            }
+            g.0.push(d);
+        }
+        if !full || g.0.len() <= free {
+            drop(g);
+            release_fds(ctx);
+            return false;
+        }
+        for _ in 0..free {
+            let d = g.0.pop().unwrap();
+            libc::close(d);
+        }
+    }
+    true
+}
+
+/// Is the table full right now (own attempt to get one more descriptor fails)?
+pub fn fds_full(ctx: &Ctx) -> bool {
+    let g = ctx.fillers.lock().unwrap();
+    match g.0.first() {
+        None => false,
+        Some(&base) => unsafe {
+            let d = libc::fcntl(base, libc::F_DUPFD_CLOEXEC, 0);
+            if d >= 0 {
+                libc::close(d);
+                false
+            } else {
+                true
+            }
+        },
+    }
+}
+
+/// Ends the fault: closes the dummy descriptors and restores the limit (idempotent; logs Fd_Recover once).
+pub fn release_fds(ctx: &Ctx) {
+    let mut g = ctx.fillers.lock().unwrap();
+    let had = !g.0.is_empty();
+    for d in g.0.drain(..) {
+        unsafe { libc::close(d); }
+    }
+    if let Some(old) = g.1.take() {
+        unsafe { libc::setrlimit(libc::RLIMIT_NOFILE, &old); }
+    }
+    drop(g);
+    if had {
+        ctx.record("Fd_Recover", "drv", -1, 0, "");
     }
 }
 
@@ -491,6 +608,7 @@ pub struct Driver {
     pub diverged: bool,
     pub return_timed_out: bool,
     pub sig_thread: Option<std::thread::JoinHandle<Box<dyn FnMut() + Send>>>,
+    pub fd_fault: String, // "" (not a descriptor scenario) | "hook" | "probe" | "not-provoked"
 }
 
 fn th_cli(c: i64) -> String {
@@ -792,6 +910,38 @@ impl Driver {
             "eof" => self.expect_eof(c),
             "sleep" => std::thread::sleep(Duration::from_millis(c.max(0) as u64)),
             "fakehang" => self.hang = true, // self-test of the driver's restart path only
+            "fdfill" => {
+                // ["fdfill", k]: the descriptor table of this process is filled, k slots stay free (for the connects
+                // of the harness's own clients that follow: in-process clients need a descriptor each)
+                if !fill_fds(&self.ctx, c.max(0) as usize) {
+                    self.fd_fault = "not-provoked".into();
+                }
+            }
+            "fdwait" => {
+                // ["fdwait", c]: connection c has been made with the last free descriptor.  Confirm the situation:
+                // the table is full (own attempt to get a descriptor fails) and accept() is failing (hook count; on a
+                // tree whose hook is not reached by a failed accept the own probe alone counts).  Linux reserves the
+                // descriptor before accept() waits, so c itself is usually still accepted and every later accept()
+                // fails at once.  Not confirmed = the scenario goes on as an ordinary one (reduced coverage).
+                if self.fd_fault.is_empty() {
+                    let connected = self.clis.get(&c).map_or(false, |x| x.sock.is_some());
+                    if connected && fds_full(&self.ctx) {
+                        self.ctx.record("Fd_Exhaust", "drv", -1, 0, "");
+                        let t0 = Instant::now();
+                        while self.ctx.acc_errs.load(Ordering::SeqCst) == 0 && t0.elapsed() < Duration::from_millis(300) {
+                            std::thread::sleep(Duration::from_millis(2));
+                        }
+                        self.fd_fault = if self.ctx.acc_errs.load(Ordering::SeqCst) > 0 { "hook".into() }
+                                        else if fds_full(&self.ctx) { "probe".into() }
+                                        else { "not-provoked".into() };
+                    } else {
+                        self.fd_fault = "not-provoked".into();
+                    }
+                    if self.fd_fault == "not-provoked" {
+                        release_fds(&self.ctx);
+                    }
+                }
+            }
             "await" => {
                 // ["await", c, "Event"]: the event must be in the log (searching from the start)
                 if self.cfg.rt == "tokio" && self.sig_sent && self.ctx.gates.lock().unwrap().mode.get("acc") == Some(&Mode::StepAll) {
@@ -900,6 +1050,8 @@ impl Driver {
             self.await_ev("Run_Return", -1, 0)
         };
         let sig_to_return_ms = t_sig.elapsed().as_millis() as u64;
+        // (a descriptor fault ends when run returns - after_return - or here, when it did not)
+        release_fds(&self.ctx);
         let mut rebind = Value::Null;
         if returned {
             // 3. the port: the run thread has bound it again immediately after run returned (Rebind record);
@@ -1260,6 +1412,37 @@ pub fn race_scenarios(rt: &str) -> Vec<Cfg> {
             v.push(mk(&format!("runtime-saturated-{}", nw), nw, "::", total, steps));
         }
     }
+    // "accept fails while the signal arrives": the process is out of file descriptors (idle / busy connections hold
+    // some, dummies the rest), one more connection is pending in the backlog (made with the last free descriptor), so
+    // accept() fails with EMFILE and the wake-up connect of the threaded run cannot get a socket either.  The property
+    // is unchanged: after the signal run returns and the port can be bound again.  (Last in the group: a tree that
+    // hangs here costs the full escalation once per scenario.)
+    for (i, (nw, bind, idle, busy, req)) in [(2usize, "127.0.0.1", 2i64, 0i64, false), (1, "0.0.0.0", 0, 1, true), (4, "::", 3, 1, false)].iter().enumerate() {
+        let mut steps = vec![];
+        let mut c = 0i64;
+        for _ in 0..*idle {
+            c += 1;
+            steps.extend([json!(["connect", c]), json!(["half", c, "s"]), json!(["rest", c, "keep"]), json!(["recv", c])]);
+        }
+        for _ in 0..*busy {
+            c += 1;
+            steps.extend([json!(["connect", c]), json!(["half", c, "l"]), json!(["rest", c, "close"]), json!(["await", c, "H_Read"])]);
+        }
+        c += 1;
+        steps.push(json!(["fdfill", 1]));
+        steps.push(json!(["connect", c]));
+        if *req {
+            steps.extend([json!(["half", c, "s"]), json!(["rest", c, "close"])]);
+        }
+        steps.push(json!(["fdwait", c]));
+        steps.push(json!(["sig"]));
+        steps.push(json!(["await", -1, "Run_Return"]));
+        let mut cfg = mk(&format!("accept-fails-at-signal-{}", i), *nw, bind, c as usize, steps);
+        if rt == "tokio" && i == 1 {
+            cfg.flavor = "current".into();
+        }
+        v.push(cfg);
+    }
     v
 }
 
@@ -1330,7 +1513,7 @@ where
         let port = fixed_port.unwrap_or_else(|| pick_port(rng));
         let server = start(&cfg, ctx.clone(), port);
         let target: SocketAddr = if cfg.bind.contains(':') { format!("[::1]:{}", port) } else { format!("127.0.0.1:{}", port) }.parse().unwrap();
-        let d = Driver { ctx: ctx.clone(), cfg: cfg.clone(), port, target, clis: HashMap::new(), server, sig_sent: false, problems: vec![], hang: false, grants: HashMap::new(), seen: HashMap::new(), diverged: false, return_timed_out: false, sig_thread: None };
+        let d = Driver { ctx: ctx.clone(), cfg: cfg.clone(), port, target, clis: HashMap::new(), server, sig_sent: false, problems: vec![], hang: false, grants: HashMap::new(), seen: HashMap::new(), diverged: false, return_timed_out: false, sig_thread: None, fd_fault: String::new() };
         let up = wait_cond(&ctx, || listening(port) || ctx.has_event("Run_Return"));
         if up && !ctx.has_event("Run_Return") {
             break (ctx, d);
@@ -1367,6 +1550,7 @@ where
     let port = d.port;
     (json!({"scenario": cfg.id, "rt": cfg.rt, "nw": cfg.nw, "bind": cfg.bind, "nc": cfg.nc, "sigkind": cfg.sigkind,
             "flavor": cfg.flavor, "restart": cfg.restart, "steps": cfg.steps, "expect": cfg.expect, "verdict": verdict, "problems": d.problems, "hang": hang, "diverged": d.diverged,
+            "fd_fault": d.fd_fault, "accept_errors": d.ctx.acc_errs.load(Ordering::SeqCst),
             "outcome": outcome, "events": events}), hang, port)
 }
 
